@@ -1,10 +1,16 @@
 #!/bin/sh
-# confirm_mutant.sh <worktree> <PID>: suite passes with the change; demo fails with it and passes without it.
-WT=$1; P=$2
+# confirm_mutant.sh <patch.diff> <demo.py> <label>
+# In a fresh scratch worktree of /repo's HEAD: the repository suite passes with the change; the
+# demonstration fails with it and passes without it.  (No `git stash`: the stash is shared by all worktrees.)
+DIFF=$(realpath "$1"); DEMO=$(realpath "$2"); L=$3
+WT=/dev/shm/confirm_$L
+git -C /repo worktree add -q --detach "$WT" HEAD || exit 2
 cd "$WT" || exit 2
+if ! git apply "$DIFF"; then echo "$L NOAPPLY"; git -C /repo worktree remove --force "$WT"; exit 1; fi
 S=$(/verif/tools/suite.sh "$WT" | head -1)
-PYTHONPATH=$WT /venv/bin/python demo_$P.py >/dev/null 2>&1; A=$?
-git stash -q
-PYTHONPATH=$WT /venv/bin/python demo_$P.py >/dev/null 2>&1; B=$?
-git stash pop -q
-echo "$P suite[$S] demo_with_change_exit=$A demo_without_change_exit=$B"
+cp "$DEMO" "$WT/demo_confirm.py"
+PYTHONPATH=$WT /venv/bin/python demo_confirm.py >/dev/null 2>&1; A=$?
+git apply -R "$DIFF"
+PYTHONPATH=$WT /venv/bin/python demo_confirm.py >/dev/null 2>&1; B=$?
+echo "$L suite[$S] demo_with_change_exit=$A demo_without_change_exit=$B"
+git -C /repo worktree remove --force "$WT"
